@@ -467,7 +467,59 @@ func runC02(outDir string, seed int64, tier string) {
 		sum.CaseFiles = append(sum.CaseFiles, name)
 		nf++
 	}
+	c02Shared(sum, len(sum.Cases)+100000)
 	sum.write(outDir, start)
+}
+
+// c02Shared: a subterm that occurs several times in a term as ONE value (bound once to a variable)
+// against the same term written out: =/2, unify_with_occurs_check/2 and subsumes_term/2 must answer the
+// same, whichever variables the shared subterm contains and whichever side binds them.
+func c02Shared(sum *runSummary, id int) {
+	subs := []string{"s(Y)", "s(X)", "s(Y, Z)", "[Y]", "s(s(Y))", "s(a)", "Y"}
+	shapes := []struct{ l, r string }{ // # is the shared subterm
+		{"f(X, Y)", "f(a(#), b(#))"},
+		{"f(Y, X)", "f(a(#), b(#))"},
+		{"f(X, Y, Z)", "f(#, g(#), h(#))"},
+		{"f(a(#), b(#))", "f(X, Y)"},
+		{"f(#, #)", "f(X, Y)"},
+		{"f(X, #)", "f(#, Y)"},
+		{"f(Y, g(#))", "f(g(#), X)"},
+		{"[X, Y]", "[#, k(#)]"},
+		{"f(X, Y)", "f(#, #)"},
+	}
+	p := prolog.New(nil, nil)
+	for _, sub := range subs {
+		for _, sh := range shapes {
+			for _, pred := range []string{"unify_with_occurs_check", "=", "subsumes_term"} {
+				shared := "S = " + sub + ", " + pred + "(" + strings.ReplaceAll(sh.l, "#", "S") + ", " + strings.ReplaceAll(sh.r, "#", "S") + ")"
+				plain := pred + "(" + strings.ReplaceAll(sh.l, "#", sub) + ", " + strings.ReplaceAll(sh.r, "#", sub) + ")"
+				if pred == "=" && sub != "s(a)" {
+					// =/2 on pairs subject to occurs check builds cyclic terms (outside the property): only the ground subterm
+					continue
+				}
+				run := func(q string) string {
+					out := runQuery(p, 2, []string{"X", "Y", "Z"}, q+" .")
+					var rows []string
+					for _, a := range out.Answers {
+						rows = append(rows, fmt.Sprint(a["X"], " ", a["Y"], " ", a["Z"]))
+					}
+					if out.Err != nil || out.GoErr != "" {
+						rows = append(rows, fmt.Sprint("error ", out.Err, out.GoErr))
+					}
+					return strings.Join(rows, " ; ")
+				}
+				a, b := run(shared), run(plain)
+				desc := map[string]interface{}{"text": shared + "   against   " + plain, "query": shared + " .", "vars": []string{"X", "Y", "Z"}}
+				sum.Cases[fmt.Sprint(id)] = desc
+				sum.Evaluations++
+				sum.count("shared-subterm:" + pred)
+				if a != b {
+					sum.Failures = append(sum.Failures, failure{ID: id, Class: "unify:depends-on-sharing-of-subterms", Input: desc, Observed: a, Expected: b + " (the same term written out)"})
+				}
+				id++
+			}
+		}
+	}
 }
 
 // mutateTerm: a term sharing the skeleton of t with some subterms replaced
